@@ -63,10 +63,11 @@ def transition_cover(sc):
         return b, {"branch": b, "period": cfg["period"], "every": cfg["every"], "align": cfg["align"],
                    "fill": cfg["fill"], "times": times}, res
 
-    items, unreachable, states = [], [], 0
+    items, unreachable, states, generated = [], [], 0, 0
     with concurrent.futures.ThreadPoolExecutor(max_workers=8) as ex:
         for b, item, res in ex.map(one, BRANCHES):
             states += res["distinct"]
+            generated += res["states"]
             if item is None:
                 unreachable.append(b)
             else:
@@ -74,7 +75,7 @@ def transition_cover(sc):
     V.log("transition cover: %d branches with an input, unreachable within the bound: %s" % (len(items), unreachable))
     path = os.path.join(out_dir, "cover.json")
     json.dump(items, open(path, "w"))
-    return path, items, unreachable, states
+    return path, items, unreachable, states, generated
 
 
 def split_by_lines(path, sc):
@@ -90,7 +91,7 @@ def validate(sc, jobs, timeout=3000, parallel=8):
     import time
     work, out = [], {}
     for tag, module, cfg, files in jobs:
-        out[tag] = {"accepted": True, "rejections": [], "kf": set(), "states": 0, "parts": 0,
+        out[tag] = {"accepted": True, "rejections": [], "kf": set(), "states": 0, "generated": 0, "parts": 0,
                     "hits": dict.fromkeys(BRANCHES, 0), "drift": []}
         for f in files:
             for part in split_by_lines(f, sc):
@@ -118,6 +119,7 @@ def validate(sc, jobs, timeout=3000, parallel=8):
                 continue
             o = out[tag]
             o["states"] += res["distinct"]
+            o["generated"] += res["states"]
             o["kf"].update(res["kf"])
             m = _RE_HITS.search(res["out"])
             if m:
@@ -180,8 +182,9 @@ def run(sc, tier, seed):
     fut = bg.submit(design_level)
     try:
         # ---- transition cover from the ring state graph
-        cover_path, items, unreachable, cstates = transition_cover(sc)
+        cover_path, items, unreachable, cstates, cgen = transition_cover(sc)
         R.states += cstates
+        R.transitions += cgen
         # ---- binding: real tasks, every group's trace validated
         out, meta = V.run_driver(sc, "c03", tier, seed, args=[cover_path], timeout=3000)
         R.add_meta(meta)
@@ -202,6 +205,7 @@ def run(sc, tier, seed):
         vc, vt, vn = val["cover inputs"], val["time windows"], val["count windows"]
         for v in (vc, vt, vn):
             R.states += v["states"]
+            R.transitions += v["generated"]
             R.handle_validation(v)
         per_model, results = fut.result()      # re-raises V.Broken from the model runs
     finally:
